@@ -765,6 +765,36 @@ const C09_SUBST: [char; 4] = ['7', 'x', ',', 'é'];
 const C09_INSERT: [char; 3] = ['0', '"', 'é'];
 
 impl Tamper {
+    /// "A restore that succeeds always yields exactly the content that was snapshotted":
+    /// the fault-free control.
+    fn undamaged(&self, s: &SnapSpec) -> Option<Violation> {
+        let hooks = SeqHooks::new(ClockCfg::default(), 3, 4);
+        let _i = Installed::new(hooks);
+        let r = guarded(|| {
+            let pkg = PriceLevelSnapshotPackage::new(s.to_lib()).map_err(|e| e.to_string())?;
+            let j = pkg.to_json().map_err(|e| e.to_string())?;
+            PriceLevel::from_snapshot_json(&j)
+                .map(|l| content_of_level(&l))
+                .map_err(|e| e.to_string())
+        });
+        let mut want: Vec<OrderSpec> = s.orders.clone();
+        want.sort_by_key(|o| (o.id, o.ts, o.vis, o.hid));
+        match r {
+            Ok(Ok(c)) if c.price == s.price && c.orders == want => None,
+            other => Some(Violation {
+                prop: "C09".into(),
+                sig: "C09/undamaged-restore-differs".into(),
+                at: 0,
+                detail: format!(
+                    "snapshot with price {} and orders {:?} packaged and restored without any fault gave {:?}",
+                    s.price,
+                    want.iter().map(|o| o.brief()).collect::<Vec<_>>(),
+                    other.map(|r| r.map(|c| (c.price, c.orders.iter().map(|o| o.brief()).collect::<Vec<_>>())))
+                ),
+            }),
+        }
+    }
+
     fn packages(&self, seed: u64) -> Vec<String> {
         let hooks = SeqHooks::new(ClockCfg::default(), seed, 4);
         let _i = Installed::new(hooks);
@@ -978,7 +1008,9 @@ impl Tamper {
         probes.insert("rejected_by_version_gate", st.version);
         probes.insert("rejected_by_checksum", st.checksum);
         probes.insert("accepted_with_identical_content", st.same_content);
-        probes.insert("rejected_other", st.other_error);
+        if st.other_error > 0 {
+            probes.insert("rejected_other", st.other_error);
+        }
         out.probes = probes;
         out.digest = dig(text);
         out.steps = hooks.steps.load(std::sync::atomic::Ordering::Relaxed);
@@ -1033,6 +1065,17 @@ impl Check for Tamper {
             }
             Tamper::merge(&mut out, self.run_package(&p, seed, None));
         }
+        // control: an undamaged package restores exactly what was snapshotted
+        for v in gen_values(seed) {
+            if let Val::Package(s) = v {
+                if let Some(v) = self.undamaged(&s) {
+                    if !out.violations.iter().any(|x| x.sig == v.sig) {
+                        out.violations.push(v);
+                    }
+                }
+                out.inner_evals += 1;
+            }
+        }
         out
     }
     fn case_of_seed(&self, seed: u64) -> Value {
@@ -1041,6 +1084,15 @@ impl Check for Tamper {
     fn run_case(&self, case: &Value) -> Result<RunOut, String> {
         if let (Some(o), Some(d)) = (case["original"].as_str(), case["damaged"].as_str()) {
             return Ok(self.run_package(o, 0, Some(d)));
+        }
+        if case.get("spec").is_some() {
+            let spec: SnapSpec =
+                serde_json::from_value(case["spec"].clone()).map_err(|e| e.to_string())?;
+            let mut out = RunOut::default();
+            if let Some(v) = self.undamaged(&spec) {
+                out.violations.push(v);
+            }
+            return Ok(out);
         }
         if let Some(d) = case["damaged_only"].as_str() {
             // crash triage case: the text alone (restoring it brought the process down)
@@ -1067,6 +1119,35 @@ impl Check for Tamper {
         Ok(out)
     }
     fn minimise(&self, case: &Value, sig: &str) -> (Value, MinStats) {
+        if sig == "C09/undamaged-restore-differs" {
+            let seed: u64 = case["seed"].as_str().and_then(|s| s.parse().ok()).unwrap_or(0);
+            for v in gen_values(seed) {
+                if let Val::Package(mut s) = v {
+                    if self.undamaged(&s).is_some() {
+                        // drop orders while it still fails
+                        let mut i = 0;
+                        while i < s.orders.len() {
+                            let mut t = s.clone();
+                            t.orders.remove(i);
+                            if self.undamaged(&t).is_some() {
+                                s = t;
+                            } else {
+                                i += 1;
+                            }
+                        }
+                        return (
+                            json!({"spec": s}),
+                            MinStats {
+                                attempts: 1,
+                                from_size: 1,
+                                to_size: 1,
+                            },
+                        );
+                    }
+                }
+            }
+            return no_min(case);
+        }
         // find the first damaged text with this signature and report (original, damaged)
         let Ok(pk) = serde_json::from_value::<Vec<String>>(case["packages"].clone()) else {
             return no_min(case);
